@@ -446,10 +446,120 @@ theorem follow_tySound (M : Model) : ∀ fuel, TySound M fuel := by
             simp only [bind, Except.bind]
             have hcs := hfd
             obtain ⟨f0, f0', fa, fa', kn, kv, kv', rfl, rfl, hfa, hkv⟩ := hfd
-            simp only [isLamB_eq] at h ⊢
-            rw [SimL_anyLam fa fa' hfa] at h
-            trace_state
-            sorry
-    all_goals sorry
+            simp only [callArgs] at h ⊢
+            simp only [SimL_anyLam fa fa' hfa] at h
+            -- the continuation when the lambda argument has to be followed
+            have hfollow : ∀ (L : Option (Ty × Bool)) (L' : Option MRes), lastRel L L' →
+                (∀ r, L' = some r → r.full = false) →
+                ((do
+                  let followed ← onStreamObj M fuel G st cand m (f0'.call fa' kn kv')
+                  match followed with
+                    | some (n, t, st') => pure (some ({ node := n, ty := t, full := true, cand := cand, mi := mi } : MRes), st')
+                    | Option.none => candLoop M fuel G st recv m args' kwn kwv' rest L') = .ok (res', st')) →
+                ∃ res, (∃ o, onStreamTy M fuel G cand m (f0.call fa kn kv) = .ok o ∧
+                  ((o = Option.none ∧ candTy M fuel G m args kwn kwv rest L = .ok res) ∨
+                   (∃ t, o = some t ∧ res = some (t, true)))) ∧ lastRel res res' := by
+              intro L L' hLL hnf hh
+              replace hh := bindE_ok hh
+              obtain ⟨o', ho, hh⟩ := hh
+              obtain ⟨to, co⟩ := ihO G st cand m _ _ o' hcs ho
+              cases o' with
+              | none =>
+                simp only [Option.map_none] at hh to
+                obtain ⟨res, h1, h2⟩ := ihC G st recv m args args' kwn kwv kwv' rest L L' res' st' sa sk hLL hh
+                exact ⟨res, ⟨_, to, Or.inl ⟨rfl, h1⟩⟩, h2⟩
+              | some p =>
+                obtain ⟨n, t, s⟩ := p
+                simp only [Option.map_some, pure, Except.pure, Except.ok.injEq, Prod.mk.injEq] at hh to
+                obtain ⟨rfl, rfl⟩ := hh
+                exact ⟨_, ⟨_, to, Or.inr ⟨t, rfl, rfl⟩⟩, rfl, by intro r hr; cases hr; exact co n t s rfl⟩
+            cases hres : resolveRet defining M (mi.ret.getD .any) with
+            | some t =>
+              simp only [hres] at h ⊢
+              by_cases hL : fa.any isLamArg = true
+              · simp only [hL, Bool.not_true, Bool.not_false, if_true, Bool.false_eq_true, if_false] at h ⊢
+                obtain ⟨res, ⟨o, ho, hcase⟩, hl⟩ := hfollow (some (t, false)) (some ⟨f0'.call fa' kn kv', t, false, cand, mi⟩) ⟨rfl, by intro r hr; cases hr; exact ⟨_, _, _, _, rfl⟩⟩ (by intro r hr; cases hr; rfl) h
+                refine ⟨res, ?_, hl⟩
+                simp only [ho]
+                rcases hcase with ⟨rfl, h1⟩ | ⟨t', rfl, rfl⟩
+                · exact h1
+                · rfl
+              · simp only [Bool.not_eq_true] at hL
+                simp only [hL, Bool.not_true, Bool.not_false, if_true, Bool.false_eq_true, if_false, pure, Except.pure,
+                  Except.ok.injEq, Prod.mk.injEq] at h ⊢
+                obtain ⟨rfl, rfl⟩ := h
+                exact ⟨_, rfl, rfl, by intro r hr; cases hr; exact ⟨_, _, _, _, rfl⟩⟩
+            | none =>
+              simp only [hres] at h ⊢
+              obtain ⟨hl1, hl2⟩ := hrel
+              cases last' with
+              | none =>
+                simp only [Option.map_none] at hl1; subst hl1
+                simp only [if_true] at h ⊢
+                obtain ⟨res, ⟨o, ho, hcase⟩, hl⟩ := hfollow Option.none Option.none ⟨rfl, by intro r hr; cases hr⟩ (by intro r hr; cases hr) h
+                refine ⟨res, ?_, hl⟩
+                simp only [ho]
+                rcases hcase with ⟨rfl, h1⟩ | ⟨t', rfl, rfl⟩
+                · exact h1
+                · rfl
+              | some r =>
+                simp only [Option.map_some] at hl1; subst hl1
+                by_cases hF : r.full = true
+                · simp only [hF, Bool.not_true, Bool.false_eq_true, if_false, pure, Except.pure, Except.ok.injEq,
+                    Prod.mk.injEq] at h ⊢
+                  obtain ⟨rfl, rfl⟩ := h
+                  exact ⟨_, rfl, by simp only [Option.map_some, hF], hl2⟩
+                · simp only [Bool.not_eq_true] at hF
+                  simp only [hF, Bool.not_false, if_true, Bool.false_eq_true, if_false] at h ⊢
+                  obtain ⟨res, ⟨o, ho, hcase⟩, hl⟩ := hfollow (some (r.ty, false)) (some r) ⟨by simp only [Option.map_some, hF], hl2⟩ (by intro r' hr; cases hr; exact hF) h
+                  refine ⟨res, ?_, hl⟩
+                  simp only [ho]
+                  rcases hcase with ⟨rfl, h1⟩ | ⟨t', rfl, rfl⟩
+                  · exact h1
+                  · rfl
+    · intro G st cand m filled filled' o' hcs h
+      simp only [onStreamObj] at h
+      obtain ⟨f0, f0', fa, fa', kn0, kv0, kv0', rfl, rfl, hfa, hkv⟩ := hcs
+      split at h
+      · rename_i cn item f' x body kn kv heq
+        simp only [Expr.call.injEq] at heq
+        obtain ⟨rfl, rfl, rfl, rfl⟩ := heq
+        have := SimL_single_lam_inv hfa; subst this
+        simp only [onStreamTy]
+        split at h
+        · rename_i hcond
+          simp only [hcond, if_true]
+          replace h := bindE_ok h
+          obtain ⟨rb, hrb, h⟩ := h
+          replace h := bindE_ok h
+          obtain ⟨u, hu, h⟩ := h
+          obtain ⟨trb, _⟩ := ihS _ _ body rb hrb
+          simp only [trb, bind, Except.bind]
+          split at h
+          · cases h
+          · rename_i hw
+            simp only [hw, if_false]
+            simp only [pure, Except.pure, Except.ok.injEq] at h; subst h
+            refine ⟨?_, ?_⟩
+            · simp only [Option.map_some, operatorElemTy]; rfl
+            · intro n t s hn
+              simp only [Option.some.injEq, Prod.mk.injEq] at hn
+              obtain ⟨rfl, _, _⟩ := hn
+              exact ⟨_, _, _, _, rfl⟩
+        · rename_i hcond
+          simp only [hcond]
+          simp only [pure, Except.pure, Except.ok.injEq] at h; subst h
+          exact ⟨rfl, by intro n t s hn; cases hn⟩
+      · rename_i hneg
+        simp only [pure, Except.pure, Except.ok.injEq] at h; subst h
+        refine ⟨?_, by intro n t s hn; cases hn⟩
+        simp only [onStreamTy, Option.map_none]
+        split
+        · rename_i cn item f'' x body kn kv heq
+          simp only [Expr.call.injEq] at heq
+          obtain ⟨rfl, rfl, rfl, rfl⟩ := heq
+          have := SimL_of_single_lam hfa; subst this
+          exact absurd rfl (hneg _ _ _ _ _ _ _ rfl)
+        · rfl
 
 end Fadl
